@@ -130,6 +130,9 @@ class Path:
             return not self.truth(test.operand)
         if isinstance(test, ast.Constant):
             return bool(test.value)
+        if isinstance(test, ast.Compare) and len(test.ops) == 1 and isinstance(test.ops[0], (ast.NotEq, ast.IsNot, ast.NotIn)):
+            pos = {ast.NotEq: ast.Eq, ast.IsNot: ast.Is, ast.NotIn: ast.In}[type(test.ops[0])]
+            return not self.truth(ast.copy_location(ast.Compare(left=test.left, ops=[pos()], comparators=test.comparators), test))
         if isinstance(test, ast.Call) and isinstance(test.func, ast.Name) and test.func.id == "isinstance" and len(test.args) == 2:
             if self.text(test.args[1]) == "Tuple()":
                 return False            # isinstance(x, ()) is False for every x
